@@ -45,22 +45,26 @@ Theorem C03_keys_distinct_refuted :
 Proof. exact keys_distinct_refuted. Qed.
 Print Assumptions C03_keys_distinct_refuted.
 
-(* every table key a client method uses is a key of the table of the transport it runs on *)
-Theorem C03_lookup_total : forall v s,
-  (s_add_iam s = false \/ v = Sync \/ iam_supplied s) ->
-  forall k, In k (client_lookup_keys v s) -> In k (wrapped_keys s).
+(* every table key a client method uses is a key of the table of the transport it runs on (no hypothesis left: the
+   add-iam-methods exception of DESIGN section 9 no. 3 was repaired in /repo; its witness stays below) *)
+Theorem C03_lookup_total : forall v s k, In k (client_lookup_keys v s) -> In k (wrapped_keys s).
 Proof. exact lookup_total. Qed.
 Print Assumptions C03_lookup_total.
 
-Theorem C03_lookup_total_refuted :
-  exists s, s_add_iam s = true /\ s_mixins s = [] /\
-    In "set_iam_policy" (client_lookup_keys Async s) /\ ~ In "set_iam_policy" (wrapped_keys s) /\
-    dispatch Async s (mkCM "set_iam_policy" Table "set_iam_policy") = None /\
-    (exists st, dispatch Sync s (mkCM "set_iam_policy" Direct "set_iam_policy") = Some st /\
-                st_path st = "/google.iam.v1.IAMPolicy/SetIamPolicy") /\
-    (forall k, In k (client_lookup_keys Sync s) -> In k (wrapped_keys s)).
-Proof. exact lookup_total_refuted. Qed.
-Print Assumptions C03_lookup_total_refuted.
+Theorem C03_table_dispatch_defined : forall v s c,
+  In c (client_methods v s) -> cm_form c = Table -> dispatch v s c = live s (cm_key c).
+Proof. exact table_dispatch_defined. Qed.
+Print Assumptions C03_table_dispatch_defined.
+
+Theorem C03_legacy_iam_example :
+  let s := mkSvc "p.v1" "Library" [mk "GetBook" false false] [] true in
+  ~ In "set_iam_policy" (wrapped_keys s) /\
+  (forall v, In (mkCM "set_iam_policy" Direct "set_iam_policy") (client_methods v s)) /\
+  (forall v, exists st, dispatch v s (mkCM "set_iam_policy" Direct "set_iam_policy") = Some st /\
+                        st_path st = "/google.iam.v1.IAMPolicy/SetIamPolicy") /\
+  dispatch Async s (mkCM "set_iam_policy" Table "set_iam_policy") = None.
+Proof. exact legacy_iam_example. Qed.
+Print Assumptions C03_legacy_iam_example.
 
 (* omitted, empty dict and empty message give the same request; a dict gives the message with those fields; a message
    instance is sent unchanged (one corner spelled out: a cross-package proto-plus request with no set field is replaced
@@ -118,13 +122,6 @@ Theorem C03_example_service :
      "/google.cloud.location.Locations/GetLocation"].
 Proof. exact ex_svc_ok. Qed.
 Print Assumptions C03_example_service.
-
-Theorem C03_example_iam_supplied :
-  s_add_iam ex_iam_svc = true /\ iam_supplied ex_iam_svc /\
-  dispatch Async ex_iam_svc (mkCM "set_iam_policy" Table "set_iam_policy") =
-    Some (mkStub "set_iam_policy" UU "/google.iam.v1.IAMPolicy/SetIamPolicy" "SerializeToString" "FromString").
-Proof. exact ex_iam_supplied. Qed.
-Print Assumptions C03_example_iam_supplied.
 
 (* the hypotheses of C03_coerce_equiv hold of a cross-package mapping (asyncio constructor included) *)
 Theorem C03_example_coercion :
